@@ -5,6 +5,7 @@ import (
 	"net/netip"
 	"sort"
 	"strings"
+	"sync"
 	"time"
 
 	"github.com/mycoria/mycoria/m"
@@ -626,5 +627,102 @@ func runC11(c *Ctx) error {
 		c.Count("stress:prefix-bound")
 	}
 	_ = sort.Strings
+	return c11ConcurrentClean(c)
+}
+
+// c11ConcurrentClean: the cleaning worker runs while a link goes away and an announcement comes
+// in (three goroutines of the running system).  Whatever the interleaving, once all three calls
+// have returned the table is the result of SOME order of the three operations: no route keeps the
+// removed next hop, and the route reported as added (own routing prefix, unexpired) is present.
+func c11ConcurrentClean(c *Ctx) error {
+	self := addrFrom(0xfd1f_0000_1111_2222, 0x3333_4444_5555_0001)
+	prefix := netip.PrefixFrom(self, m.RegionPrefixBits).Masked()
+	if mk, err := m.LookupCountryMarker(self); err == nil {
+		prefix = mk.Prefix
+	}
+	cfg := m.RoutingTableConfig{RoutablePrefixes: m.GetRoutablePrefixesFor(self, prefix), RouterIP: self}
+	tbl := m.NewRoutingTable(cfg)
+	p1, p2 := addrFrom(0xfd1f_0000_0010_0000, 0xaa01), addrFrom(0xfd1f_0000_0011_0000, 0xaa02)
+	route := func(d, nh netip.Addr, k int) m.RoutingTableEntry {
+		hops := []m.SwitchHop{{Router: self, Delay: 5, ForwardLabel: 3}, {Router: nh, Delay: uint16(5 + k%50), ForwardLabel: 4, ReturnLabel: 5}, {Router: d, ReturnLabel: 6}}
+		return m.RoutingTableEntry{DstIP: d, NextHop: nh, Path: m.SwitchPath{Hops: hops}, Source: m.RouteSourceGossip, Expires: time.Now().Add(time.Hour)}
+	}
+	fill := func() {
+		_, _ = tbl.AddRoute(m.RoutingTableEntry{DstIP: p1, NextHop: p1, Source: m.RouteSourcePeer})
+		_, _ = tbl.AddRoute(m.RoutingTableEntry{DstIP: p2, NextHop: p2, Source: m.RouteSourcePeer})
+		for k := 0; k < 6000; k++ {
+			// spread over the whole fd00::/8 so that many routing prefixes hold a few routes each
+			d := addrFrom(0xfd00_0000_0000_0000|uint64(k%251)<<48|uint64(k%64)<<42|uint64(k)<<8, uint64(k))
+			_, _ = tbl.AddRoute(route(d, []netip.Addr{p1, p2}[k%2], k))
+		}
+	}
+	fill()
+	rounds := c.Pick(60, 400)
+	for r := 0; r < rounds; r++ {
+		if r%20 == 0 && r > 0 {
+			fill()
+		}
+		_, _ = tbl.AddRoute(m.RoutingTableEntry{DstIP: p1, NextHop: p1, Source: m.RouteSourcePeer})
+		for k := 0; k < 30; k++ {
+			d := addrFrom(0xfd00_0000_0000_0000|uint64((k*7+r)%251)<<48|uint64(k)<<8, uint64(0x5000+k))
+			_, _ = tbl.AddRoute(route(d, p1, k))
+		}
+		fresh := addrFrom(0xfd1f_0000_0020_0000|uint64(r), uint64(0x7000+r))
+		var added bool
+		var wg sync.WaitGroup
+		wg.Add(3)
+		go func() { defer wg.Done(); tbl.Clean() }()
+		go func() {
+			defer wg.Done()
+			for spin := 0; spin < (r%7)*2000; spin++ {
+				_ = spin
+			}
+			tbl.RemoveNextHop(p1)
+		}()
+		go func() {
+			defer wg.Done()
+			for spin := 0; spin < (r%5)*3000; spin++ {
+				_ = spin
+			}
+			added, _ = tbl.AddRoute(route(fresh, p2, r))
+		}()
+		wg.Wait()
+		c.Eval()
+		after := tbl.VerifEntries()
+		stale, have := 0, false
+		for i := range after {
+			if after[i].NextHop == p1 {
+				stale++
+			}
+			if after[i].DstIP == fresh {
+				have = true
+			}
+		}
+		rep := map[string]any{"round": r, "routes": len(after), "stale": stale, "added": added, "present": have}
+		tbl.RemoveDisconnected(fresh, nil)
+		if stale > 0 {
+			c.Violate(fmt.Sprintf("after Clean, RemoveNextHop(p) and AddRoute ran concurrently and all returned, %d route(s) still use the removed next hop p", stale), "concurrent-clean-lost-removal", rep)
+			break
+		}
+		if added && !have {
+			// a cleanup ordered after the addition may trim the new route (crowded routing prefix): then
+			// adding it again and cleaning, one after the other, loses it again
+			_, _ = tbl.AddRoute(route(fresh, p2, r))
+			tbl.Clean()
+			for _, x := range tbl.VerifEntries() {
+				if x.DstIP == fresh {
+					have = true
+				}
+			}
+			tbl.RemoveDisconnected(fresh, nil)
+			if !have {
+				continue
+			}
+			have = false
+			c.Violate("after Clean, RemoveNextHop and AddRoute ran concurrently and all returned, the route reported as added is not in the table", "concurrent-clean-lost-add", rep)
+			break
+		}
+	}
+	c.Count("concurrent-clean-rounds")
 	return nil
 }
